@@ -14,6 +14,12 @@ import os, re, json
 from .. import core, build, gen, shapes, mergerside as M
 
 FILES = {"x": [(b"", [1]), (b"a", [2]), (b"c", [3])], "y": [(b"a", [11]), (b"b", [12])], "z": [(b"b", [21]), (b"c", [22]), (b"d", [23, 24])]}
+# a dozen small tables for the histories that name many files at once (the shared set keeps its entries sorted and
+# searches them; the merger over >= 7 files uses deeper heap slots)
+FILES_MANY = dict(FILES)
+for _i, _n in enumerate(["x0", "x1", "x2", "y0", "y1", "y2", "z0", "z1", "z2"]):
+    FILES_MANY[_n] = [(bytes([0x61 + (_i * 2 + j) % 5]) + (b"" if j == 0 else b"q"), [30 + 3 * _i + j]) for j in range(1 + _i % 3)]
+    FILES_MANY[_n] = sorted(FILES_MANY[_n])
 
 
 def tlc_models(ctx):
@@ -67,7 +73,7 @@ def iv(x):
     return "never" if x == 99 else str(x)
 
 
-def script_for(wd, n, ops, rng):
+def script_for(wd, n, ops, rng, FILES=FILES):
     d = os.path.join(wd, "h%d" % n)
     os.makedirs(d, exist_ok=True)
     L = ["scratch " + d, "clock 1000"]
@@ -147,16 +153,22 @@ def script_for(wd, n, ops, rng):
     return [x for x in L if x]
 
 
-def random_history(rng, nops):
+def random_history(rng, nops, universe=("x", "y", "z", "m", "g")):
     """histories with the operations the model alphabet lacks: file creation/deletion together with a setfile rewrite"""
-    ops = [("init", [rng.choice([0, 2, 5, 99])], rng.sample(["x", "y", "z", "m", "g"], rng.randint(0, 4)))]
+    universe = list(universe)
+    _sample = rng.sample
+    class _R:            # subsets of the universe of names (up to all of them when it is large)
+        pass
+    def pick():
+        return _sample(universe, rng.randint(0, 4 if len(universe) <= 5 else len(universe)))
+    ops = [("init", [rng.choice([0, 2, 5, 99])], pick())]
     alive, opened = {1}, {}
     for _ in range(nops):
         x = rng.random()
         if x < 0.15:
             ops.append(("tick", [], []))
         elif x < 0.3:
-            ops.append(("rewrite", [], rng.sample(["x", "y", "z", "m", "g"], rng.randint(0, 4))))
+            ops.append(("rewrite", [], pick()))
         elif x < 0.38 and len(alive) < 3:
             h = min(set([1, 2, 3]) - alive)
             ops.append(("dup", [h, rng.choice(sorted(alive)), rng.choice([0, 2, 5, 99])], []))
@@ -189,12 +201,15 @@ def run(ctx):
     tlc_models(ctx)
     hs = tlc_behaviours(ctx, 150 if ctx.quick() else 6000)
     hs += [random_history(rng, rng.choice([10, 25, 60])) for _ in range(100 if ctx.quick() else 4000)]
+    nmany = 40 if ctx.quick() else 800
+    many0 = len(hs)
+    hs += [random_history(rng, rng.choice([10, 25]), universe=list(FILES_MANY) + ["m", "g"]) for _ in range(nmany)]
     wd = ctx.sub("run")
     for bi in range(0, len(hs), 50):
         chunk = hs[bi:bi + 50]
         lines = []
         for n, ops in enumerate(chunk):
-            lines += script_for(wd, bi + n, ops, rng) + ["---"]
+            lines += script_for(wd, bi + n, ops, rng, FILES_MANY if bi + n >= many0 else FILES) + ["---"]
         evs, rc, err = core.run_drv(b, "\n".join(lines) + "\n", wd, "b%d" % bi, fork=True, timeout=900)
         recs = core.convert_events(evs)
         out = []
